@@ -74,6 +74,8 @@ def c08(rep, tier):
     r_scope.run_scopetype(p, rep, keys=[k for k in r_scope.SCOPE_SPEC if "Render " in k or "Include " in k or "render_tag" in k or "include_tag" in k])
     r_scope.run_rtcalls(p, rep, only=["liquid_lib::stdlib::tags::include_tag::Include", "liquid_lib::stdlib::tags::render_tag::Render"])
     r_pair.check_loop_reset(p, rep, "<liquid_lib::stdlib::tags::render_tag::Render as liquid_core::runtime::renderable::Renderable>::render_to", "Render::render_to(for)")
+    r_partials.run_loud(p, rep)
+    r_freeze.run_freeze(p, rep)
     rep.analysed["config:all"] = {"bodies": len(p.fns)}
 
 
@@ -85,6 +87,7 @@ def c04(rep, tier):
     r_fwd.run_lookup_keying(p, rep)
     r_scope.run_rtcalls(p, rep)
     r_verbatim.param_unused(p, rep, "<liquid_lib::stdlib::blocks::capture_block::Capture as liquid_core::runtime::renderable::Renderable>::render_to", 2)
+    r_verbatim.capture_binds_text(p, rep, "<liquid_lib::stdlib::blocks::capture_block::Capture as liquid_core::runtime::renderable::Renderable>::render_to")
     r_utf8sink.run_unsafe(p, rep)
     rep.analysed["config:all"] = {"bodies": len(p.fns)}
 
@@ -169,6 +172,7 @@ def c11(rep, tier):
     r_cmp.run_orderins(p, rep, [r_cmp.CORE_FNS["value_eq"], r_cmp.CORE_FNS["value_cmp"]])
     r_cmp.run_eqonly(p, rep)
     r_table.run_operator_table(p, rep)
+    r_table.run_date_cmp(p, rep)
     rep.analysed["config:all"] = {"bodies": len(p.fns)}
 
 
@@ -233,6 +237,8 @@ def c03(rep, tier):
     r_verbatim.single_field_print(p, rep, ["<liquid_core::parser::text::Text" + RT, "<liquid_lib::stdlib::blocks::raw_block::RawT" + RT])
     r_verbatim.no_calls(p, rep, "<liquid_lib::stdlib::blocks::comment_block::Comment" + RT)
     r_parsers.run_comment_raw(p, rep)
+    r_parsers.run_escape_closer(p, rep)
+    r_utf8sink.run(p, rep)
     rep.analysed["config:all"] = {"bodies": len(p.fns)}
 
 
@@ -283,7 +289,8 @@ def c13(rep, tier):
     r_unit.run(p, rep)
     r_unit.run_split_join(p, rep)
     r_unit.run_truncate_decision(p, rep)
-    r_table.run_filter_ops(p, rep, only=["string::", "html::NewlineToBr"])
+    r_table.run_filter_ops(p, rep, only=["string::", "html::NewlineToBr", "slice::", "SizeFilter"])
+    r_table.run_state_use(p, rep, only=["DefaultFilter"])
     r_lookup.run_fold_order(p, rep)
     import r_strslice
     fns = [f for f in p.fns.values() if f.id.startswith("liquid_lib::stdlib::filters::string::") or f.id.startswith("liquid_lib::stdlib::filters::slice::")]
@@ -297,6 +304,7 @@ def c12(rep, tier):
     r_views.run_cast(p, rep)
     r_views.run_derived(p, rep)
     r_table.run_truth_table(p, rep)
+    r_table.run_date_formats(p, rep)
     rep.analysed["config:all"] = {"bodies": len(p.fns)}
 
 
